@@ -783,20 +783,23 @@ example :
 
 /-! ## the name-keyed sections -/
 
-theorem addAll_prefix (fc : Char → Char) (es acc : List SEntry) (d : List Str) :
-    (∃ x, (addAll fc es acc d).1 = acc ++ x) ∧ (∀ n ∈ d, n ∈ (addAll fc es acc d).2) := by
+theorem addAll_prefix (key : SEntry → Str) (ph : Bool) (es acc : List SEntry) (d : List Str) :
+    (∃ x, (addAll key ph es acc d).1 = acc ++ x) ∧ (∀ n ∈ d, n ∈ (addAll key ph es acc d).2) := by
   induction es generalizing acc d with
   | nil => exact ⟨⟨[], by simp [addAll]⟩, fun n hn => by simpa [addAll] using hn⟩
   | cons e es ih =>
     simp only [addAll]
     split
-    · obtain ⟨h1, h2⟩ := ih acc (d ++ [e.name])
-      exact ⟨h1, fun n hn => h2 n (List.mem_append_left _ hn)⟩
+    · split
+      · exact ih acc d
+      · obtain ⟨h1, h2⟩ := ih acc (d ++ [e.name])
+        exact ⟨h1, fun n hn => h2 n (List.mem_append_left _ hn)⟩
     · obtain ⟨⟨x, hx⟩, h2⟩ := ih (acc ++ [e]) d
       exact ⟨⟨[e] ++ x, by rw [hx]; simp⟩, h2⟩
 
-theorem addAll_flags (fc : Char → Char) (es acc : List SEntry) (d : List Str) (e : SEntry) (he : e ∈ es)
-    (hk : acc.any (fun x => sameKey fc x.name e.name) = true) : (addAll fc es acc d).2 ≠ [] := by
+theorem addAll_flags (key : SEntry → Str) (ph : Bool) (es acc : List SEntry) (d : List Str) (e : SEntry)
+    (he : e ∈ es) (hk : acc.any (fun x => key x == key e) = true) (hnp : (ph && isPlaceholder e) = false) :
+    (addAll key ph es acc d).2 ≠ [] := by
   induction es generalizing acc d with
   | nil => cases he
   | cons f es ih =>
@@ -804,16 +807,20 @@ theorem addAll_flags (fc : Char → Char) (es acc : List SEntry) (d : List Str) 
     rcases List.mem_cons.mp he with h | h
     · subst h
       rw [if_pos hk]
+      simp only [hnp, Bool.false_eq_true, ↓reduceIte]
       intro hnil
-      have := (addAll_prefix fc es acc (d ++ [e.name])).2 e.name (by simp)
+      have := (addAll_prefix key ph es acc (d ++ [e.name])).2 e.name (by simp)
       rw [hnil] at this; cases this
     · split
-      · exact ih acc _ h hk
+      · split
+        · exact ih acc _ h hk
+        · exact ih acc _ h hk
       · apply ih (acc ++ [f]) d h
         simp only [List.any_append, hk, Bool.true_or]
 
-theorem addAll_kept (fc : Char → Char) (es acc : List SEntry) (d : List Str)
-    (h : (addAll fc es acc d).2 = []) : ∀ e ∈ es, e ∈ (addAll fc es acc d).1 := by
+theorem addAll_kept (key : SEntry → Str) (ph : Bool) (es acc : List SEntry) (d : List Str)
+    (h : (addAll key ph es acc d).2 = []) :
+    ∀ e ∈ es, e ∈ (addAll key ph es acc d).1 ∨ (ph = true ∧ isPlaceholder e = true) := by
   induction es generalizing acc d with
   | nil => intro e he; cases he
   | cons f es ih =>
@@ -821,32 +828,42 @@ theorem addAll_kept (fc : Char → Char) (es acc : List SEntry) (d : List Str)
     split
     · rename_i hk
       rw [if_pos hk] at h
-      have := (addAll_prefix fc es acc (d ++ [f.name])).2 f.name (by simp)
-      rw [h] at this; cases this
+      split
+      · rename_i hp
+        rw [if_pos hp] at h
+        intro e he
+        rcases List.mem_cons.mp he with he | he
+        · subst he; right; simpa using hp
+        · exact ih _ _ h e he
+      · rename_i hp
+        rw [if_neg hp] at h
+        have := (addAll_prefix key ph es acc (d ++ [f.name])).2 f.name (by simp)
+        rw [h] at this; cases this
     · rename_i hk
       rw [if_neg hk] at h
       intro e he
       rcases List.mem_cons.mp he with he | he
       · subst he
-        obtain ⟨x, hx⟩ := (addAll_prefix fc es (acc ++ [e]) d).1
-        rw [hx]; simp
+        obtain ⟨x, hx⟩ := (addAll_prefix key ph es (acc ++ [e]) d).1
+        left; rw [hx]; simp
       · exact ih _ _ h e he
 
 /-- **Sections merge conservatively.** If a library's section merges into the partner's, the partner's
-entries stay first and unchanged, every name the partner knows is looked up to the same entry (same
-attributes), and every entry the library offers is present with its own attributes. -/
-theorem section_conservative (fc : Char → Char) (base lib m : List SEntry) (am : Bool)
-    (h : mergeSection fc base lib am = .ok m) :
+entries stay first and unchanged, every key the partner knows is looked up to the same entry (same
+attributes), and every entry the library offers is present with its own attributes (a bare placeholder of an
+existing unit class excepted: it only carries units). -/
+theorem section_conservative (key : SEntry → Str) (ph : Bool) (base lib m : List SEntry) (am : Bool)
+    (h : mergeSection key ph base lib am = .ok m) :
     (∃ added, m = base ++ added) ∧
-    (∀ n e, sectionGet fc base n = some e → sectionGet fc m n = some e) ∧
-    (∀ e ∈ offered lib am, e ∈ m) := by
+    (∀ k e, sectionGet key base k = some e → sectionGet key m k = some e) ∧
+    (∀ e ∈ offered lib am, e ∈ m ∨ (ph = true ∧ isPlaceholder e = true)) := by
   simp only [mergeSection] at h
   split at h
   · rename_i hd
     injection h with h
     subst h
-    obtain ⟨x, hx⟩ := (addAll_prefix fc (offered lib am) base []).1
-    refine ⟨⟨x, hx⟩, ?_, addAll_kept fc _ _ _ (by simpa using hd)⟩
+    obtain ⟨x, hx⟩ := (addAll_prefix key ph (offered lib am) base []).1
+    refine ⟨⟨x, hx⟩, ?_, addAll_kept key ph _ _ _ (by simpa using hd)⟩
     intro n e hn
     rw [hx]
     unfold sectionGet at hn ⊢
@@ -854,12 +871,13 @@ theorem section_conservative (fc : Char → Char) (base lib m : List SEntry) (am
   · cases h
 
 /-- **A shared name in a section is refused**: a unit class, unit, unit modifier, value class, attribute or
-property the library offers under a name the partner (or an earlier library) already has. -/
-theorem section_refuse_shared (fc : Char → Char) (base lib : List SEntry) (am : Bool) (b l : SEntry)
-    (hb : b ∈ base) (hl : l ∈ offered lib am) (hsame : sameKey fc b.name l.name = true) :
-    ∃ d, mergeSection fc base lib am = .error d ∧ d ≠ [] := by
-  have hk : base.any (fun x => sameKey fc x.name l.name) = true := List.any_eq_true.mpr ⟨b, hb, hsame⟩
-  have := addAll_flags fc (offered lib am) base [] l hl hk
+property the library offers under a key the partner (or an earlier library) already has — unless it is the
+bare placeholder by which a library adds units to a partner's unit class. -/
+theorem section_refuse_shared (key : SEntry → Str) (ph : Bool) (base lib : List SEntry) (am : Bool) (b l : SEntry)
+    (hb : b ∈ base) (hl : l ∈ offered lib am) (hsame : key b = key l) (hnp : (ph && isPlaceholder l) = false) :
+    ∃ d, mergeSection key ph base lib am = .error d ∧ d ≠ [] := by
+  have hk : base.any (fun x => key x == key l) = true := List.any_eq_true.mpr ⟨b, hb, by simp [hsame]⟩
+  have := addAll_flags key ph (offered lib am) base [] l hl hk hnp
   simp only [mergeSection]
   split
   · rename_i hd; exact absurd (by simpa using hd) this
